@@ -76,6 +76,7 @@ using Universe = TL<
     W1<i32>, W1<string>, W1<vector<i32>>, W1<W1<i32>>,
     S2<i32, string>, X2<i32, string>, S2<i32, W1<string>>, S2<string, i32>, S2<W1<i32>, string>, S1<i32>,
     T2<i32, string>, T2<W1<i32>, string>, T2<i32, W1<string>>, T2<string, i32>, T1<i32>, T1<W1<i32>>,
+    T1<S1<vector<i32>>>, T1<LBC<i32, 200, i32>>,  // entry sizes: the logical buffer's Size() inside a table entry
     T3<i32, string>, T3A<i32, string>, T3<W1<i32>, string>, T3A<i32, W1<string>>,  // same hash and ids; entry 5 deleted vs active
     Optional<i32>, Optional<W1<i32>>, Optional<string>,
     Result<Err, i32>, Result<Err, W1<i32>>, Result<ErrU8, i32>,
